@@ -53,6 +53,8 @@ def main():
                 b = r.below(a + 1)
                 order[a], order[b] = order[b], order[a]
             jobs.append(("multi-module", "verify", [files[j] for j in order]))
+    for i in range(600 if thorough else 60):
+        jobs.append(("private-name-clash", "verify", faultgen.clash_modules(rng.fork("clash%d" % i))))
     for name, src in faultgen.corpus():
         if name.startswith("tests/samples/valid") or name.startswith("examples"):
             jobs.append(("corpus", "verify", [(os.path.basename(name), src)]))
@@ -81,8 +83,38 @@ def main():
                     problems.append("function %s is not defined in its module's IR" % fname)
                 elif want_external and (defs.get(fname) != "external" or linked.get(fname) != "external"):
                     problems.append("function %s should be externally visible, linkage is %s / %s in the linked IR" % (fname, defs.get(fname), linked.get(fname)))
+        key = "ir:" + rq[:300]
+        if problems and len(u) > 1 and hd.get("verify") != "ok":
+            # caused by same-named private structures / words in several modules?  (rename all but the first and see)
+            def layouts(src):
+                out = {}
+                for kw, nm, body in re.findall(r"^(?:pub\s+)?(struct|word)\d*\s+([A-Za-z_][A-Za-z0-9_]*)\s*\{([^}]*)\}", src, re.M):
+                    out[nm] = (kw, [m.split(":")[1].strip() for m in body.split(",") if ":" in m])
+                return out
+            decls = [layouts(src) for _, src in u]
+            shared = set()
+            for i in range(len(u)):
+                for j in range(i + 1, len(u)):
+                    shared |= set(decls[i]) & set(decls[j])
+            if shared:
+                renamed = []
+                first_seen = set()
+                for idx, (n2, s2) in enumerate(u):
+                    for nm in shared:
+                        if nm in decls[idx]:
+                            if nm in first_seen:
+                                s2 = re.sub(r"\b%s\b" % re.escape(nm), "%s_renamed%d_" % (nm, idx), s2)
+                            first_seen.add(nm)
+                    renamed.append((n2, s2))
+                rq2 = "alpha\tverify\t" + "\t".join(x for n2, s2 in renamed for x in (n2, esc(s2)))
+                a2 = run_harness_serial([rq2])[0]
+                if a2.startswith("ok") and kv(a2)[1].get("verify") == "ok":
+                    kinds = sorted(set(decls[i][nm][0] for i in range(len(u)) for nm in shared if nm in decls[i]))
+                    counts = set(len(decls[i][nm][1]) for i in range(len(u)) for nm in shared if nm in decls[i])
+                    key = "c03:invalid-linked-ir:same-named-%s-in-two-modules:%s" % (
+                        "+".join(kinds), "member-count-differs" if len(counts) > 1 else "member-types-differ")
         if problems:
-            rep.violation("ir:" + rq[:300], {"why": problems[:5], "files": dict(u), "harness_request": rq, "implementation": a[:800],
+            rep.violation(key, {"why": problems[:5], "files": dict(u), "harness_request": rq, "implementation": a[:800],
                                              "note": "implementation-vs-oracle failure (LLVM's assembler/verifier or the symbol table), not a model disagreement"})
         else:
             agreeing += 1
@@ -90,7 +122,8 @@ def main():
     rep.coverage.update({
         "evaluations": len(jobs), "programs": accepted, "distinct_nontrivial": len(set(reqs)),
         "rule": "generated programs (valid; without main; for the wasm target; with run-time UB and a non-terminating loop; split "
-                "over 2-4 modules in random file order), the valid corpus (tests/samples/valid, examples) and single-fault "
+                "over 2-4 modules in random file order; module sets whose private structures, words, helpers and constants share "
+                "names), the valid corpus (tests/samples/valid, examples) and single-fault "
                 "mutants of it; every ACCEPTED input: llvm-as and opt -passes=verify accept every module's IR and the linked "
                 "IR, every function defined in the sources is defined in the linked IR, main and pub functions have "
                 "external linkage",
